@@ -218,31 +218,30 @@ fn judge(c: &Case, text: &str) -> Option<(String, String)> {
             }
         }
     }
-    // generated fields are private
-    for s in [t, p, d] {
+    // generated fields (whatever they are called: every field the description does not declare) are private
+    let declared: [(&synx::StructInfo, &[&str]); 3] = [(t, &["a", "b", "c"]), (p, &["x", "y"]), (d, &["base"])];
+    for (s, names) in declared {
         for f in &s.fields {
-            if (f.name == "vftable" || f.name.starts_with("_field_")) && f.public {
+            if !names.contains(&f.name.as_str()) && f.public {
                 problems.borrow_mut().push(("generated_field_public".into(), format!("{}.{}", s.name, f.name)));
             }
         }
     }
-    if !t.fields.iter().any(|f| f.name == "vftable") || !t.fields.iter().any(|f| f.name.starts_with("_field_")) || !p.fields.iter().any(|f| f.name.starts_with("_field_")) {
+    // T has a vftable pointer and a gap, P has a gap: at least that many generated fields exist
+    if t.fields.len() < 3 + 2 || p.fields.len() < 2 + 1 {
         problems.borrow_mut().push(("item_missing".into(), "expected generated vftable / padding fields".into()));
     }
     for f in &tv.fields {
-        let want = match f.name.as_str() {
-            "v" => Some(bit(c.vis, 3)),
-            "w" => Some(!bit(c.vis, 3)),
-            n if n.starts_with("_vfunc_") => Some(false),
-            _ => None,
+        let (want, placeholder) = match f.name.as_str() {
+            "v" => (bit(c.vis, 3), false),
+            "w" => (!bit(c.vis, 3), false),
+            _ => (false, true),
         };
-        if let Some(w) = want {
-            if f.public != w {
-                problems.borrow_mut().push((if f.name.starts_with("_vfunc_") { "placeholder_slot_public".into() } else { "visibility_differs".into() }, format!("TVftable.{}: expected pub={w} emitted pub={}", f.name, f.public)));
-            }
+        if f.public != want {
+            problems.borrow_mut().push((if placeholder { "placeholder_slot_public".into() } else { "visibility_differs".into() }, format!("TVftable.{}: expected pub={want} emitted pub={}", f.name, f.public)));
         }
     }
-    if tv.fields.iter().filter(|f| f.name.starts_with("_vfunc_")).count() != 2 {
+    if tv.fields.iter().filter(|f| f.name != "v" && f.name != "w").count() != 2 {
         problems.borrow_mut().push(("item_missing".into(), "expected two placeholder slots in TVftable".into()));
     }
     for (ty, name, want) in [("T", "f", bit(c.vis, 2)), ("T", "g", !bit(c.vis, 2)), ("T", "v", bit(c.vis, 3)), ("T", "w", !bit(c.vis, 3)), ("P", "get", bit(c.vis, 6))] {
